@@ -574,4 +574,79 @@ theorem compose_scan (kind : Nat) (env : Env) (b : BridgeMsg) (seq : Nat) (r : S
   simp [cosmosToMsg, emitAttrs, scanAttrs, attrStep, e1, e7, n21, n31, n32, n51, n52, n53, n54, n41, n42, n43,
     hseq, hamt, hr, hsym, Acc.seenCount]
 
+/-! ### the batch path -/
+
+theorem wellFormed_of_ok (env : Env) (val : Str) (ev : EthEvent) (c : Claim)
+    (h : ethToClaim env val ev = .ok c) : ethWellFormed env ev = true := by
+  cases hw : ethWellFormed env ev with
+  | true => rfl
+  | false =>
+    obtain ⟨e, he⟩ := (ethToClaim_verdict env val ev).2 hw
+    rw [he] at h; cases h
+
+theorem not_wellFormed_of_error (env : Env) (val : Str) (ev : EthEvent) (e : Fail)
+    (h : ethToClaim env val ev = .error e) : ethWellFormed env ev = false := by
+  cases hw : ethWellFormed env ev with
+  | false => rfl
+  | true =>
+    obtain ⟨c, hc⟩ := (ethToClaim_verdict env val ev).1 hw
+    rw [hc] at h; cases h
+
+/-- the chain's stateless validation of a translated claim, in terms of its source event -/
+theorem validateBasic_of_ok (env : Env) (val : Str) (ev : EthEvent) (c : Claim)
+    (h : ethToClaim env val ev = .ok c) : validateBasicOK env c = submittable env val ev := by
+  have hw := wellFormed_of_ok env val ev c h
+  obtain ⟨r, _, hr, _, _, rfl⟩ := ethToClaim_ok env val ev c h
+  simp [validateBasicOK, submittable, hw, hr, addrString]
+
+theorem relayBatch_cons_ok (env : Env) (val : Str) (ev : EthEvent) (rest : List EthEvent) (c : Claim)
+    (h : ethToClaim env val ev = .ok c) :
+    relayBatch env val (ev :: rest) =
+      if submittable env val ev then c :: relayBatch env val rest else relayBatch env val rest := by
+  have hv := validateBasic_of_ok env val ev c h
+  simp only [relayBatch, List.filterMap_cons, claimOf, h, List.filter_cons, hv]
+
+theorem relayBatch_cons_error (env : Env) (val : Str) (ev : EthEvent) (rest : List EthEvent) (e : Fail)
+    (h : ethToClaim env val ev = .error e) :
+    relayBatch env val (ev :: rest) = relayBatch env val rest := by
+  simp only [relayBatch, List.filterMap_cons, claimOf, h]
+
+theorem submittable_false_of_error (env : Env) (val : Str) (ev : EthEvent) (e : Fail)
+    (h : ethToClaim env val ev = .error e) : submittable env val ev = false := by
+  simp [submittable, not_wellFormed_of_error env val ev e h]
+
+theorem relayBatch_positional (env : Env) (val : Str) (events : List EthEvent) :
+    batchCountOK env val events (relayBatch env val events) = true ∧
+    batchFieldsOK env val events (relayBatch env val events) = true := by
+  induction events with
+  | nil => simp [batchCountOK, batchFieldsOK, relayBatch]
+  | cons ev rest ih =>
+    obtain ⟨ih1, ih2⟩ := ih
+    simp only [batchCountOK, batchFieldsOK, decide_eq_true_eq] at ih1 ih2 ⊢
+    cases h : ethToClaim env val ev with
+    | error e =>
+      rw [relayBatch_cons_error env val ev rest e h]
+      simp only [List.filter_cons, submittable_false_of_error env val ev e h]
+      exact ⟨ih1, ih2⟩
+    | ok c =>
+      rw [relayBatch_cons_ok env val ev rest c h]
+      cases hs : submittable env val ev with
+      | false => simp only [List.filter_cons, hs]; exact ⟨ih1, ih2⟩
+      | true =>
+        simp only [List.filter_cons, hs, if_true, List.length_cons, List.zip_cons_cons, List.all_cons,
+          Bool.and_eq_true]
+        exact ⟨by omega, ethToClaim_faithful env val ev c h, ih2⟩
+
+/-- every submitted claim is the translation of an event of the batch -/
+theorem relayBatch_mem (env : Env) (val : Str) (events : List EthEvent) (c : Claim)
+    (h : c ∈ relayBatch env val events) : ∃ ev, ev ∈ events ∧ ethToClaim env val ev = .ok c := by
+  simp only [relayBatch, List.mem_filter, List.mem_filterMap] at h
+  obtain ⟨⟨ev, hev, hc⟩, _⟩ := h
+  refine ⟨ev, hev, ?_⟩
+  unfold claimOf at hc
+  cases he : ethToClaim env val ev with
+  | error e => simp [he] at hc
+  | ok c' => simp [he] at hc; rw [hc]
+
+
 end Sif.Proofs.C16
